@@ -21,13 +21,14 @@ EXPRS2 = ["-q0**2+q1", "q1*-q0**2", "(q1+1)/-q5**2", "q0+q1", "q0*q1-3", "q1/q0"
 EXPRS3 = ["q0+2*q1-q5*0.25", "q0*q1*q5", "(q0+q1)/q5", "q12-q5+q1", "q1*q5+q0*q12", "q0/(q1*q5)"]
 FUNCS = ["sin(q0)*2", "exp(q1)+q0", "sqrt(q5)/q0"]
 # register numbers written with leading zeros, next to registers whose spelling sorts differently from their number
+DIVISORS = ["q0/0.0000007", "q1/1.3e-6+q0", "q0/0.7071067811865475-q5", "q5*q0/0.0000123", "q0/3.5e7", "q1/0.1+q0/0.3"]
 ZEROS = ["q01-q5", "q5/q001+1", "q012*q5-q1", "q00-q1*2", "q05**2-q12", "q1-q012", "q010-q5"]
 
 
 def scripts(tier):
     S = []
     hdr = ["name c08", "version 1.0", "", "MeasureX | 0", "MeasureP | 1"]
-    allx = EXPRS1 + EXPRS2 + EXPRS3 + FUNCS + ZEROS
+    allx = EXPRS1 + EXPRS2 + EXPRS3 + FUNCS + ZEROS + DIVISORS
     for e in allx:
         S.append(hdr + ["Dgate(%s) | %%(m)s" % e])
         S.append(hdr + ["Dgate(%%(f)s, phi=%s) | %%(m)s" % e])
@@ -66,6 +67,8 @@ def gen(spec, lv):
     lines = [l % sub if "%(" in l else l for l in _S[tier][i]]
     pre = [z3.Distinct(modes)] if lv.symbolic and len(modes) > 1 else []
     g = {"text": "\n".join(lines) + "\n", "pre": pre, "order": True, "what": ("ops", "modes", "params")}
+    if any(d in g["text"] for d in DIVISORS):
+        g["concrete_only"] = True       # non-dyadic float coefficients: compared natively with tolerance (see _script.run_spec)
     if post == "deepcopy":
         g["post"] = _deepcopy        # a copy of the program must carry transforms that still compute the written formula
     return g
